@@ -1329,8 +1329,8 @@ class Range(NumericTuple):
         vmin, vmax = bounds
         incmin, incmax = inclusive_bounds
         for bound, v in zip(['lower', 'upper'], val):
-            too_low = (vmin is not None) and (v < vmin if incmin else v <= vmin)
-            too_high = (vmax is not None) and (v > vmax if incmax else v >= vmax)
+            too_low = (vmin is not None) and not (v >= vmin if incmin else v > vmin)
+            too_high = (vmax is not None) and not (v <= vmax if incmax else v < vmax)
             if too_low or too_high:
                 raise ValueError(
                     f"{_validate_error_prefix(self)} {bound} bound must be in "
